@@ -2,7 +2,7 @@ from lanes import *  # noqa
 
 PROP = {
     "level": "exploration",
-    "level_text": "Seeded exploration of the real emit_batcher channel under scripted actors (1-6 senders mixing send / try_send / blocking_send / tokio send, 0-3 flushers, 0-2 empty-watchers), three receiver flavours (sync::spawn, Receiver::exec on a hand-polled executor with virtual waits, tokio::spawn), a scripted processor (Ok / no-retry / retry with seeded remainder / panic / panic inside the future / slow) and capacities 1-64 and large. Every history is judged offline from call/return stamps only: no invention or duplication, retry = exactly the returned remainder (retry budget measured at start-up), delivery order never contradicts real-time send order, accepted = delivered + truncated with each truncation removing exactly one full queue and counted by the metric; about a third of the histories are sequential ones in which actor operations are injected at the receiver's scheduling points and every step is compared with a queue model through verif_snapshot(). Schedule diversity comes from the H-B hook (seeded yields / spins / sleeps between critical sections, operations aimed at receiver windows), from Miri's seeded scheduler and from TSan-instrumented runs; the evidence counts the distinct interleaving signatures and batch partitions actually produced. Held-on-what-was-observed: 'every interleaving' means every interleaving produced, not all.",
+    "level_text": "Seeded exploration of the real emit_batcher channel under scripted actors (1-6 senders mixing send / try_send / blocking_send / tokio send, 0-3 flushers, 0-2 empty-watchers), three receiver flavours (sync::spawn, Receiver::exec on a hand-polled executor with virtual waits, tokio::spawn), a scripted processor (Ok / no-retry / retry with seeded remainder / panic / panic inside the future / slow) and capacities 1-64 and large. Every history is judged offline from call/return stamps only: no invention or duplication, retry = exactly the returned remainder (retry budget measured at start-up), delivery order never contradicts real-time send order, accepted = delivered + truncated with each truncation removing exactly one full queue and counted by the metric; about a third of the histories are sequential ones in which actor operations are injected at the receiver's scheduling points and every step is compared with a queue model through verif_snapshot(). Schedule diversity comes from the H-B hook (seeded yields / spins / sleeps between critical sections, operations aimed at receiver windows), from Miri's seeded scheduler and from TSan-instrumented runs; the evidence counts the distinct interleaving signatures and batch partitions actually produced. Held-on-what-was-observed: 'every interleaving' means every interleaving produced, not all. Metrics sampling next to a live channel (a sampler that parks, panics or sends into the sampled channel from its callback) is exercised against a real receiver thread: nothing accepted afterwards may be lost and the receiver must survive.",
     "level_note": "Trusts the checker in harness/mon/src/shared/chan.rs, the placement of the H-B scheduling points (used by the sequential queue model to know when the swap-out happens) and vcommon::stamp() (one SeqCst counter: 'return stamp < call stamp' implies real-time precedence). Truncated items are known exactly because the harness supplies its own Channel implementation whose clear() records what it removed.",
     "technique": "runtime monitoring: offline history checker (no-dup, remainder, order, conservation, queue model) over seeded channel scenarios with hook-injected schedules; Miri and ThreadSanitizer lanes run the same monitor",
     "assumptions": [
